@@ -46,7 +46,7 @@ def identities(ck, c):
             bad('bezier_point', exp_pt, got)
         # float evaluation as well (dyadic => exact for small degree; tolerance otherwise)
         gf = bz.bezier_point([float(x) for x in P], float(t))
-        if abs(gf - float(exp_pt)) > 1e-9 * max(1.0, abs(float(exp_pt))):
+        if not (abs(gf - float(exp_pt)) <= 1e-9 * max(1.0, abs(float(exp_pt)))):
             bad('bezier_point(float)', float(exp_pt), gf)
         co = list(bz.bezier2polynomial(p))
         if [F(x) for x in co] != [F(x) for x in c['coeffs']]:
@@ -182,7 +182,7 @@ def real_polynomials(ck, rnd, n):
         # abstract the order numpy produced
         clusters, abs_roots = [], []
         for r in raw:
-            if abs(r.imag) > 1e-3:
+            if not (abs(r.imag) <= 1e-3):
                 kd = 'cx'
             elif 0 <= r.real <= 1:
                 kd = 'in'
